@@ -57,6 +57,11 @@ CLAIMED = {
          'PCUBE files from the real xpbin against the formulae written independently (DUs, weights, acceptcorr, MC energy, LIST and EQP binnings, empty bins), weight-scheme guard.',
          'Lean kernel + Mathlib; model + generators; SIGNIF uses scipy (external); response splines as per-event values; float32 FITS columns (2e-5); '
          'μ = 0 bins with finite Q, U are unreachable through the constructor (recorded: the static error formulae return inf there).'),
+ 'C20': ('proof', 'Lean 4 theorems about generated formulas (translator) and a model of harmonic_addition, with Float correspondence and implementation oracles',
+         'qu_pd_roundtrip, qu_pa_roundtrip (+ mod π for every angle), Asq_eq/Asq_nonneg, harmonic_addition_is_stokes_sum, harmonic_perm_invariant, radial_tangential_orthogonal, '
+         'pl_roundtrip (pl_integral ∘ pl_norm = id for every index and energy power incl. the logarithmic branch), degrees_refused_iff; oracles: all permutations, '
+         'harmonic_component_addition at the nodes, fields around random centres, closed forms vs quadrature, broadband averages of constant models, the simulator guard.',
+         'Lean kernel + Mathlib; translator; a**b as exp(b log a); FITPACK integrals in the broadband averages are measured (1e-9), not proved.'),
 }
 NOT_YET = 'check not built yet in this round (work in progress; see DESIGN.md section 7 for the planned model and theorems)'
 
